@@ -13,15 +13,17 @@ def instances(tier, seed):
     import c03
     out = []
     # (b, k_in, k_ggsw, k_out, dsize, dnum, in_place); dnum*dsize >= input limbs and k_out >= k_ggsw: exact
-    shapes = [(12, 24, 36, 36, 1, 2, False), (12, 36, 36, 36, 1, 3, True), (12, 24, 48, 48, 2, 1, False), (12, 36, 60, 60, 2, 2, False), (4, 8, 12, 12, 1, 2, False), (4, 12, 12, 12, 1, 3, True)]
+    shapes = [(12, 24, 36, 36, 1, 2, False), (4, 8, 8, 8, 1, 2, True), (12, 36, 36, 36, 1, 3, True), (12, 24, 48, 48, 2, 1, False), (12, 36, 60, 60, 2, 2, False), (4, 8, 12, 12, 1, 2, False), (4, 12, 12, 12, 1, 3, True)]
     for b, kin, kg, kout, dsize, dnum, inpl in shapes:
         for rank in (1, 2):
             for mp in (0, 1, 2, 3):
                 for variant, nsym in ((0, 2), (2, 2), (0, 999)):
                     if nsym == 999 and not ((b, kin, dsize, rank, mp) == (4, 8, 1, 1, 2)):
                         continue
+                    if nsym == 999 and tier != "thorough":
+                        continue
                     sp, sec = c03.secret8(rank, variant)
-                    core = (b, kin, kg, kout, dsize, dnum, inpl, rank, mp, variant, nsym) in ((12, 24, 36, 36, 1, 2, False, 1, 2, 0, 2), (4, 12, 12, 12, 1, 3, True, 1, 1, 0, 2))
+                    core = (b, kin, kg, kout, dsize, dnum, inpl, rank, mp, variant, nsym) in ((12, 24, 36, 36, 1, 2, False, 1, 2, 0, 2), (4, 8, 8, 8, 1, 2, True, 1, 1, 0, 2))
                     rawlen = 8 * (rank + 1) * -(-max(kin, kout) // b)
                     out.append(Instance(crate="hk_core", family="ep.glwe_external_product_assign" if inpl else "ep.glwe_external_product",
                                         name=f"c04_ep{'_assign' if inpl else ''}_b{b}_kin{kin}_kg{kg}_ko{kout}_ds{dsize}_dn{dnum}_r{rank}_m{mp}_v{variant}_{'all' if nsym == 999 else f'sym{nsym}'}",
